@@ -143,3 +143,33 @@ Theorem C15_runner_bytes_format : forall (before flag env after : option bool),
   = match first_some [after; flag; env; before] with Some b => b | None => false end.
 Proof. exact bytes_format_level_spec. Qed.
 Print Assumptions C15_runner_bytes_format.
+
+(** Seconds given as decimal text ([--min-time] / [--max-time] and their
+    DIVAN_* variables): what the model takes the value to be is the exact
+    decimal reading — [secs * 10^9 + nanos = int * 10^9 + frac * 10^(9 - k)] for
+    [k <= 9] fractional digits, [nanos < 10^9]. (That std's f64 route yields
+    this value is an assumption, checked against [parse_seconds] on every run.) *)
+Theorem C15_decimal_seconds : forall (text : list N) (s n : N),
+  decimal_nanos text = Some (s, n) ->
+  exists ip fp i f,
+    decimal_parts text = Some (ip, fp) /\ digits_val ip = Some i /\ digits_val fp = Some f /\
+    N.of_nat (length fp) <= 9 /\
+    n < 10 ^ 9 /\
+    s * 10 ^ 9 + n = i * 10 ^ 9 + f * 10 ^ (9 - N.of_nat (length fp)).
+Proof. exact decimal_nanos_exact. Qed.
+Print Assumptions C15_decimal_seconds.
+
+Theorem C15_digits_positional : forall (l : list N) (c : N),
+  digits_val (l ++ [c]) =
+  match digits_val l, digit_of c with
+  | Some v, Some d => Some (v * 10 + d)
+  | _, _ => None
+  end.
+Proof. exact digits_val_app_digit. Qed.
+Print Assumptions C15_digits_positional.
+
+Theorem C15_parse_seconds_model_sb : forall (text : list N),
+  parse_seconds_sb text (decimal_nanos text) = true \/
+  (exists ip fp, decimal_parts text = Some (ip, fp) /\ 9 < N.of_nat (length fp)).
+Proof. exact parse_seconds_sb_model. Qed.
+Print Assumptions C15_parse_seconds_model_sb.
